@@ -116,6 +116,16 @@ def generate(run_seed, tier):
         instances["i%d" % (k + 1)] = {"recipe": ["raw", tw], "name": "twin_raw"}
         extra_words.extend([tw, "abc", "aaa", "ab", "a", "x", "7", "aa"])
         k += 2
+    elif wl.random() < 0.12:
+        # "printable twins": two different patterns whose printable export (get_pattern()) is the same text - a
+        # hand-written backslash + raw control character and the literal backslash + letter
+        ctl, let = wl.choice([("\n", "n"), ("\t", "t"), ("\r", "r"), ("\x00", "x00"), ("\x0b", "x0b")])
+        pre_ = wl.choice(["", "a", "ab"])
+        suf = wl.choice(["", "b", "1"])
+        instances["i%d" % k] = {"recipe": ["raw", pre_ + "\\" + ctl + suf], "name": "ptwin_raw"}
+        instances["i%d" % (k + 1)] = {"recipe": ["lit", pre_ + "\\" + let + suf], "name": "ptwin_lit"}
+        extra_words.extend([pre_ + ctl + suf, pre_ + "\\" + let + suf, pre_ + "\\" + ctl + suf, "a", "b"])
+        k += 2
     aliases = {}
     if wl.random() < 0.5:                       # equal-text duplicate (distinct object)
         src = wl.choice(sorted(instances))
